@@ -6,7 +6,7 @@
 EXTENDS Integers, Sequences, SequencesExt, FiniteSets, TLC, Bitwise, Bytes
 
 Prbs23(x) == LET b0 == x % 2  b1 == (x \div 32) % 2 IN (x \div 2) + ((b0 + b1) % 2) * 4194304
-IsPow2(m) == m \in {1, 2, 4, 8, 16, 32, 64, 128, 256, 512, 1024}
+IsPow2(m) == m \in {1, 2, 4, 8, 16, 32, 64, 128, 256, 512, 1024, 2048, 4096, 8192, 16384}    \* NbFrag is a 14-bit field
 
 \* set of data-fragment indices (1-based) that parity fragment n (n >= 1) of an M-fragment block combines
 MatrixLine(n, m) ==
